@@ -21,9 +21,8 @@ no longer running — "after the actor system itself has stopped").  Everything 
   ids below `nextEnv`) holds in every reachable state.
 * `C03_processed_runs_behaviour`: "processed" means the behaviour was invoked on that envelope.
 
-Not proved here: *at most once* (no duplication other than by the user's own `Stash` calls) — that
-needs a counting argument; it is checked on every lock-step run by the quiescence monitor
-(`ended twice`).
+*At most once* (no duplication other than by the user's own `Stash` calls) is the counting argument
+of `Props/C03Exact.lean` (`C03_exact_account`, `C03_exactly_one_place`).
 -/
 namespace Vivid.ActorSys
 
